@@ -166,3 +166,14 @@ def check(value, annotation):
         return "AnnotationError"
     except Exception as e:  # noqa: BLE001
         return f"EXC:{type(e).__name__}:{e}"[:200]
+
+
+def same_bindings(a, b) -> bool:
+    """Compare two (single, variadic) state prefixes; the hidden exact/broadcastable flag of
+    variadic entries is ignored when either side could not read it (fallback mode)."""
+    if a[0] != b[0]:
+        return False
+    va, vb = a[1], b[1]
+    if any(x[1] is None for x in va) or any(x[1] is None for x in vb):
+        return sorted((k, sh) for k, _, sh in va) == sorted((k, sh) for k, _, sh in vb)
+    return va == vb
